@@ -268,6 +268,7 @@ Definition call_clo (fid : nat) (args : list val) (kwargs : kwargs_t) : M val :=
 Definition eval_prop (name : string) (recv : val) : M (val * bool) :=
   st <- get_st ;;
   match find_prop W st recv name with
+  | Some (VErrObj k m) => raise k m      (* an error object held as a property raises when read *)
   | Some p => ret (p, false)
   | None => match find_prop W st recv "_missing" with
             | Some m => ret (m, true)
